@@ -584,11 +584,12 @@ func CheckC12(e *Env) (int, error) {
 	}
 	e.Logf("C12: instrumented %d yield sites, sync rewritten in %v, unmodelled constructs: %v", len(rep.Sites), rep.SyncFiles, rep.Unmodelled)
 	thorough := e.Tier == "thorough"
-	budget := time.Duration(envInt("VERIF_C12_SECONDS", 60)) * time.Second
-	maxRuns := 200000
+	// a fixed number of runs (so that one VERIF_SEED is one repeatable batch), with a wall-clock cap as a safety net
+	budget := time.Duration(envInt("VERIF_C12_SECONDS", 240)) * time.Second
+	maxRuns := envInt("VERIF_C12_RUNS", 8000)
 	if thorough {
-		budget = time.Duration(envInt("VERIF_C12_SECONDS", 900)) * time.Second
-		maxRuns = 5000000
+		budget = time.Duration(envInt("VERIF_C12_SECONDS", 5400)) * time.Second
+		maxRuns = envInt("VERIF_C12_RUNS", 400000)
 	}
 	rng := plan.NewRand(plan.Derive(e.Seed, "C12/pool", 0))
 	pool := c12Pool(rng, 300)
@@ -624,6 +625,7 @@ func CheckC12(e *Env) (int, error) {
 	probes := map[string]int{}
 	tolerated := 0
 	var samples []interface{}
+	var od OrderedDigest
 	auditPairs, auditMismatch := 0, 0
 	explicitPairs, explicitMismatch := 0, 0
 	var auditDetail string
@@ -690,6 +692,7 @@ func CheckC12(e *Env) (int, error) {
 				tot.OtherStepsInBuild += st.OtherStepsInBuild
 				tot.LockAcquires += st.LockAcquires
 				digests[out.Digest] = true
+				od.Add(i, strDigest(out.Digest))
 				nt := (st.OnceMultiEnter >= 1 && (st.PreemptInBuild >= 1 || st.BlockedOnOnce >= 1)) || st.BlockedOnLock >= 1
 				if nt {
 					nontrivial++
@@ -798,6 +801,8 @@ func CheckC12(e *Env) (int, error) {
 		"solo_oracle_processes": g.solo.Procs,
 		"unmodelled_constructs": rep.Unmodelled,
 		"raw_violations":      len(viols),
+		"outcome_digest":      od.String(),
+		"run_budget":          map[string]interface{}{"runs_requested": maxRuns, "wall_cap_s": budget.Seconds(), "stopped_by_wall_cap": runs < maxRuns && len(viols) < 12},
 		"bounds":              "<= 8 tasks x <= 4 calls, <= 2e6 steps, no preemption inside standard-library or x/ calls (races there are still detected: detection is happens-before based)",
 	}
 	if err := e.WriteEvidence("C12", "exploration", cov, []string{
